@@ -182,3 +182,57 @@ pub fn drain<T: Debug, E: Debug, S: Stream<Item = zlink_core::Result<Result<T, E
     }
     items.join("|")
 }
+
+// ---- size sweep: one hand-written trait, every argument length, all three forms ----
+
+#[proxy(interface = "org.gen.sweep", crate = "zlink_core")]
+pub trait SweepProxy {
+    async fn put(&mut self, key: &str, #[zlink(rename = "theN")] n: Option<i64>) -> zlink_core::Result<Result<(), ErrP>>;
+    #[zlink(more)]
+    async fn watch(&mut self, key: &str) -> zlink_core::Result<impl Stream<Item = zlink_core::Result<Result<(), ErrP>>>>;
+}
+
+/// For every length 0..=max of the string argument: the frames the plain method, the chain
+/// starter and the chain extension (behind GetInfo, i.e. serialised at a non-zero buffer offset)
+/// put on the wire. Record key `sweep.<method>.<form>.<len>`.
+pub fn size_sweep(out: &mut Vec<Record>, min: usize, max: usize) {
+    for len in min..=max {
+        let key: String = "abcdefghijklmnopqrstuvwxyz".chars().cycle().take(len).collect();
+        let n = if len % 3 == 0 { None } else { Some(len as i64) };
+        let rec = |name: String, h: &SimHandle, r: &str| Record { key: name, frames: frames_of(h), result: r.to_string(), lowlevel: String::new() };
+        {
+            let (mut conn, h) = new_conn(&[]);
+            let _ = block(conn.put(&key, n));
+            out.push(rec(format!("sweep.put.plain.{len}"), &h, ""));
+        }
+        {
+            let (mut conn, h) = new_conn(&[]);
+            let r = {
+                let c: zlink_core::Result<Chain<'_, SimSocket, serde_json::Value, ErrP>> = conn.chain_put(&key, n);
+                match c { Ok(c) => match block(c.send()) { Some(Ok(_)) => "sent", Some(Err(_)) => "fail", None => "pending" }, Err(_) => "fail" }
+            };
+            out.push(rec(format!("sweep.put.chain.{len}"), &h, r));
+        }
+        {
+            let (mut conn, h) = new_conn(&[]);
+            let r = {
+                let c: zlink_core::Result<Chain<'_, SimSocket, serde_json::Value, ErrP>> = conn.chain_get_info();
+                match c.and_then(|c| c.put(&key, n)).and_then(|c| c.put("tail", Some(1))) { Ok(c) => match block(c.send()) { Some(Ok(_)) => "sent", Some(Err(_)) => "fail", None => "pending" }, Err(_) => "fail" }
+            };
+            out.push(rec(format!("sweep.put.ext.{len}"), &h, r));
+        }
+        {
+            let (mut conn, h) = new_conn(&[]);
+            let _ = block(conn.watch(&key)).map(|r| r.map(|_| ()));
+            out.push(rec(format!("sweep.watch.plain.{len}"), &h, ""));
+        }
+        {
+            let (mut conn, h) = new_conn(&[]);
+            let r = {
+                let c: zlink_core::Result<Chain<'_, SimSocket, serde_json::Value, ErrP>> = conn.chain_watch(&key);
+                match c { Ok(c) => match block(c.send()) { Some(Ok(_)) => "sent", Some(Err(_)) => "fail", None => "pending" }, Err(_) => "fail" }
+            };
+            out.push(rec(format!("sweep.watch.chain.{len}"), &h, r));
+        }
+    }
+}
